@@ -3,7 +3,10 @@ From Hio Require Import Base.Prelude Base.ListFacts Model.HttpClient.
 From Coq Require Import ZifyBool.
 Local Open Scope N_scope.
 
-Lemma run_app s evs evs' : run s (evs ++ evs') = run (run s evs) evs'.
+Section WithMethods.
+Variable mof : N -> N.
+
+Lemma run_app s evs evs' : run mof s (evs ++ evs') = run mof (run mof s evs) evs'.
 Proof. unfold run. apply fold_left_app. Qed.
 
 Lemma wire_reqs_app w w' : wire_reqs (w ++ w') = wire_reqs w ++ wire_reqs w'.
@@ -29,9 +32,9 @@ Definition Inv (all : list N) (s : cstate) : Prop :=
        /\ (u = [] \/ (sent s = false /\ waited s = true /\ length u = 1%nat)))
   /\ (sent s = true -> waited s = true).
 
-Lemma inv_init sec rd : Inv [] (init sec rd).
+Lemma inv_init sec rd m : Inv [] (init_m sec rd m).
 Proof.
-  unfold Inv, init, inflight. cbn.
+  unfold Inv, init_m, inflight. cbn.
   split; [reflexivity|]. split; [reflexivity|]. split; [|discriminate].
   exists []. split; [reflexivity | now left].
 Qed.
@@ -43,7 +46,7 @@ Proof.
   rewrite !map_app, H1. cbn [map]. now rewrite <- !app_assoc.
 Qed.
 
-Lemma inv_pump all s : Inv all s -> Inv all (pump s).
+Lemma inv_pump all s : Inv all s -> Inv all (pump mof s).
 Proof.
   intros HI. unfold pump.
   destruct (waited s) eqn:Hw; [exact HI|].
@@ -116,22 +119,22 @@ Proof.
 Qed.
 
 Lemma inv_step all s e :
-  Inv all s -> Inv (all ++ match e with Enq t => [t] | Pass _ => [] end) (step s e).
+  Inv all s -> Inv (all ++ match e with Enq t => [t] | Pass _ => [] end) (step mof s e).
 Proof.
   intros HI. destruct e as [t|o]; cbn [step].
   - now apply inv_enq.
   - rewrite app_nil_r. pose proof (inv_pump all s HI) as HP.
     destruct o as [r|]; [|assumption].
-    destruct (waited (pump s)) eqn:Hw; [|assumption].
-    destruct (sent (pump s)) eqn:Hs; [|assumption].
-    cbn [andb]. now apply inv_complete.
+    destruct (waited (pump mof s)) eqn:Hw; [|assumption].
+    destruct (sent (pump mof s)) eqn:Hs; [|assumption].
+    cbn [andb]. destruct (readable (pump mof s) r); [now apply inv_complete | assumption].
 Qed.
 
-Lemma inv_run : forall evs all s, Inv all s -> Inv (all ++ enqs evs) (run s evs).
+Lemma inv_run : forall evs all s, Inv all s -> Inv (all ++ enqs evs) (run mof s evs).
 Proof.
   induction evs as [|e evs IH]; intros all s HI; cbn [run fold_left enqs].
   - now rewrite app_nil_r.
-  - apply (inv_step all s e) in HI. apply IH in HI. fold (run (step s e) evs).
+  - apply (inv_step all s e) in HI. apply IH in HI. fold (run mof (step mof s e) evs).
     destruct e; cbn [enqs]; [now rewrite <- app_assoc in HI | now rewrite app_nil_r in HI].
 Qed.
 
@@ -152,14 +155,14 @@ Qed.
 
 (* FIFO, one entry per request, at most one in flight; requests reach the wire
    in queue order and at most one of them is unanswered. *)
-Theorem fifo sec rd evs :
-  let s := run (init sec rd) evs in
+Theorem fifo sec rd m evs :
+  let s := run mof (init_m sec rd m) evs in
   map Some (enqs evs) = map origin (responses s) ++ inflight s ++ map Some (queue s)
   /\ (length (inflight s) <= 1)%nat
   /\ (exists rest, enqs evs = wire_reqs (wire s) ++ rest)
   /\ (length (wire_reqs (wire s)) <= length (responses s) + 1)%nat.
 Proof.
-  intros s. destruct (inv_run evs [] (init sec rd) (inv_init sec rd)) as (H1 & H2 & (u & H3 & Hu) & H4).
+  intros s. destruct (inv_run evs [] (init_m sec rd m) (inv_init sec rd m)) as (H1 & H2 & (u & H3 & Hu) & H4).
   cbn [List.app] in H1. fold s in H1, H2, H3, Hu, H4.
   split; [exact H1|]. split.
   { unfold inflight. destruct (waited s); cbn [length]; lia. }
@@ -176,7 +179,7 @@ Qed.
 Definition InvS (s : cstate) : Prop :=
   https s = true /\ Forall (fun w => w_https w = true) (wire s).
 
-Lemma invS_pump s : InvS s -> InvS (pump s).
+Lemma invS_pump s : InvS s -> InvS (pump mof s).
 Proof.
   intros [H1 H2]. unfold pump. destruct (waited s); [now split|].
   destruct (queue s); [now split|]. split; cbn [https wire]; [assumption|].
@@ -200,19 +203,19 @@ Proof.
     constructor; [reflexivity | constructor].
 Qed.
 
-Lemma invS_step s e : InvS s -> InvS (step s e).
+Lemma invS_step s e : InvS s -> InvS (step mof s e).
 Proof.
   intros H. destruct e as [t|o]; cbn [step]; [exact H|].
   apply invS_pump in H. destruct o as [r|]; [|assumption].
-  destruct (waited (pump s) && sent (pump s)); [now apply invS_complete | assumption].
+  destruct (waited (pump mof s) && sent (pump mof s) && readable (pump mof s) r); [now apply invS_complete | assumption].
 Qed.
 
-Theorem https_kept rd evs :
-  let s := run (init true rd) evs in
+Theorem https_kept rd m evs :
+  let s := run mof (init_m true rd m) evs in
   https s = true /\ Forall (fun w => w_https w = true) (wire s).
 Proof.
   cbn zeta. unfold run.
-  assert (G : forall evs s, InvS s -> InvS (fold_left step evs s)).
+  assert (G : forall evs s, InvS s -> InvS (fold_left (step mof) evs s)).
   { induction evs0 as [|e evs0 IH]; intros s H; [assumption|]. cbn [fold_left]. apply IH. now apply invS_step. }
   apply G. split; [reflexivity | constructor].
 Qed.
@@ -273,27 +276,27 @@ Proof.
     + unfold InvH. cbn [redirects latest responses]. auto.
 Qed.
 
-Lemma invH_step all s e : Inv all s -> InvH s -> InvH (step s e).
+Lemma invH_step all s e : Inv all s -> InvH s -> InvH (step mof s e).
 Proof.
   intros HI H. destruct e as [t|o]; cbn [step].
   - exact H.
-  - assert (HP : InvH (pump s)).
+  - assert (HP : InvH (pump mof s)).
     { unfold pump. destruct (waited s) eqn:Hw; [exact H|]. destruct (queue s); [exact H|].
       destruct HI as (_ & H2 & _). specialize (H2 Hw). destruct H as (A & B & C & D).
       unfold InvH. cbn [redirects latest responses]. rewrite H2.
       split; [constructor|]. split; [exact I|]. split; [congruence | assumption]. }
     destruct o as [r|]; [|assumption].
-    destruct (waited (pump s) && sent (pump s)); [now apply invH_complete | assumption].
+    destruct (waited (pump mof s) && sent (pump mof s) && readable (pump mof s) r); [now apply invH_complete | assumption].
 Qed.
 
-Theorem history_attached sec rd evs :
-  Forall good_entry (responses (run (init sec rd) evs)).
+Theorem history_attached sec rd m evs :
+  Forall good_entry (responses (run mof (init_m sec rd m) evs)).
 Proof.
-  assert (G : forall evs all s, Inv all s -> InvH s -> InvH (run s evs)).
+  assert (G : forall evs all s, Inv all s -> InvH s -> InvH (run mof s evs)).
   { induction evs0 as [|e evs0 IH]; intros all s HI H; [assumption|]. cbn [run fold_left].
-    fold (run (step s e) evs0). eapply IH; [eapply inv_step; eassumption | eapply invH_step; eassumption]. }
-  destruct (G evs [] (init sec rd) (inv_init sec rd)) as (_ & _ & _ & D); [|exact D].
-  unfold InvH, init. cbn. split; [constructor|]. split; [exact I|]. split; [congruence | constructor].
+    fold (run mof (step mof s e) evs0). eapply IH; [eapply inv_step; eassumption | eapply invH_step; eassumption]. }
+  destruct (G evs [] (init_m sec rd m) (inv_init sec rd m)) as (_ & _ & _ & D); [|exact D].
+  unfold InvH, init_m. cbn. split; [constructor|]. split; [exact I|]. split; [congruence | constructor].
 Qed.
 
 (* every followed redirect hop is recorded, in order: completing a reply either
@@ -314,3 +317,60 @@ Proof.
   - match goal with |- context [if ?c then _ else _] => destruct c end; [left; eauto|].
     right. cbn [redirects responses waited]. auto.
 Qed.
+
+(* ------------------------------------------------------------------ *)
+(* Methods: while a request is in flight the respondent reads the reply with the
+   method of exactly that request (so the no-body rule for HEAD is applied to HEAD
+   replies and to no others), also across followed redirects. *)
+Definition InvM (s : cstate) : Prop :=
+  waited s = true ->
+  rs_method s = rq_method s /\ (forall t, inflight s = [Some t] -> rq_method s = mof t).
+
+Lemma invM_step all s e : Inv all s -> InvM s -> InvM (step mof s e).
+Proof.
+  intros HI HM. destruct e as [t|o]; cbn [step].
+  - exact HM.
+  - assert (HP : InvM (pump mof s)).
+    { unfold pump. destruct (waited s) eqn:Hw; [exact HM|]. destruct (queue s) as [|t q]; [exact HM|].
+      destruct HI as (_ & H2 & _). specialize (H2 Hw).
+      unfold InvM, inflight. cbn [waited redirects latest rs_method rq_method]. rewrite H2.
+      intros _. split; [reflexivity|]. intros t' E. now inversion E. }
+    destruct o as [r|]; [|assumption].
+    destruct (waited (pump mof s)) eqn:Hw; [|assumption]. cbn [andb].
+    destruct (sent (pump mof s) && readable (pump mof s) r); [|assumption].
+    specialize (HP Hw). destruct HP as [E1 E2]. unfold inflight in E2. rewrite Hw in E2.
+    set (p := pump mof s) in *. unfold complete.
+    assert (D : forall st e c, InvM (deliver p st e c)) by (intros st e c X; discriminate X).
+    destruct (redirectable p && is_redirect (rp_status r)); [|apply D].
+    destruct (rp_loc r) as [l|]; [|apply D].
+    match goal with |- context [if ?c then _ else _] => destruct c end.
+    + unfold InvM, inflight. cbn [waited redirects latest rs_method rq_method].
+      intros _. split; [reflexivity|]. rewrite head_snoc. cbn [snd]. exact E2.
+    + match goal with |- context [if ?c then _ else _] => destruct c end; [apply D|].
+      unfold InvM, inflight. cbn [waited redirects latest rs_method rq_method].
+      intros _. split; [reflexivity|]. rewrite head_snoc. cbn [snd]. exact E2.
+Qed.
+
+Theorem method_tracks sec rd m evs :
+  let s := run mof (init_m sec rd m) evs in
+  waited s = true ->
+  rs_method s = rq_method s /\ (forall t, inflight s = [Some t] -> rq_method s = mof t).
+Proof.
+  cbn zeta.
+  assert (G : forall evs all s, Inv all s -> InvM s -> InvM (run mof s evs)).
+  { induction evs0 as [|e evs0 IH]; intros all s HI H; [assumption|]. cbn [run fold_left].
+    fold (run mof (step mof s e) evs0). eapply IH; [eapply inv_step; eassumption | eapply invM_step; eassumption]. }
+  apply (G evs [] (init_m sec rd m) (inv_init sec rd m)). intros X. discriminate X.
+Qed.
+
+(* hence a consumed reply is always readable: no reply is ever left half read or
+   over-read because of the method, for every schedule *)
+Corollary always_readable sec rd m evs r :
+  let s := run mof (init_m sec rd m) evs in
+  waited s = true -> readable s r = true.
+Proof.
+  cbn zeta. intros Hw. destruct (method_tracks sec rd m evs Hw) as [E _].
+  unfold readable. rewrite E. apply Bool.eqb_reflx.
+Qed.
+
+End WithMethods.
